@@ -11,7 +11,8 @@ CHECKS['C33'] = dict(
     binaries=['build/bin/c33'],
     quick=dict(runs=3200, workers=16, chunk=10, wall_cap=600),
     thorough=dict(runs=60000, workers=16, chunk=10, wall_cap=3000),
-    run_timeout=120,
+    run_timeout=40,      # a run takes well under a second; a stuck next_prime() is a violation
+    exec_timeout=40,
     shrink_ints=['n', 'limit'],
     expected_probes=['iterator_stepped_after_cache_cleared', 'gen_crosses_segment_boundary',
                      'size_changed_with_warm_cache', 'bounded_iterator_exhausted'],
@@ -73,11 +74,11 @@ CHECKS['C13'] = dict(
     shrink_keys=['ops', 'outputs', 'pool'],
     expected_probes=['reinit', 'reinit_cse_on_to_off', 'reinit_cse_off_to_on', 'reinit_fewer_outputs',
                      'reinit_more_outputs', 'failed_init', 'reinit_after_failed_init_or_move', 'moved',
-                     'cse_on_off_compared', 'compared_with_reference_evaluation'],
+                     'cse_on_off_compared', 'compared_with_reference_evaluation', 'input_named_like_cse_temporary'],
     rule=('one run = a seeded history (5-55 steps) on 1-3 long-lived LambdaRealDoubleVisitor / '
           'LambdaComplexDoubleVisitor objects: init with 1-4 inputs and 1-7 outputs generated over all node kinds '
           'the visitors accept (sharing between outputs so CSE has work), re-init with more/fewer outputs and the CSE '
-          'flag flipped, failing inits (unknown symbol, unsupported node), calls at nice and random points, '
+          'flag flipped, failing inits (unknown symbol, unsupported node), inputs named like cse() temporaries (x0, x1, ...; used or unused by the outputs), calls at nice and random points, '
           'move-construct/assign; steps of different objects interleave. Non-trivial = at least one successful '
           're-initialisation and >=2 judged calls; distinct = distinct event-log hash.'),
     state_measure='not tracked (distinct event logs are the measure)',
@@ -99,13 +100,13 @@ CHECKS['C18'] = dict(
     exec_timeout=90,
     shrink_keys=['ops', 'faults'],
     expected_probes=['parse_after_failed_parse', 'parse_ok', 'parse_error', 'trunc', 'byte', 'nul', 'dup', 'del',
-                     'splice', 'paren', 'opbyte', 'swap'],
+                     'splice', 'paren', 'opbyte', 'swap', 'tail', 'head', 'same_input_again'],
     rule=('one run = one long-lived Parser (1 in 3 runs with local constants) and one long-lived SbmlParser fed a '
           'seeded history of 10-120 inputs: grammar-generated valid strings (numbers incl. leading zeros, exponents, '
           'long integers; identifiers incl. bytes >= 0x80; all operators, relationals, boolean operators and '
           'functions; Piecewise; implicit multiplication; random whitespace; nesting up to 300 parentheses) each with '
           '0-2 attached input faults (truncate / overwrite byte / NUL / duplicate span / delete span / splice / stray '
-          'parenthesis / operator byte / swap), convert_xor toggled per call, free parse() interleaved. Outcome of '
+          'parenthesis / operator byte / swap / unknown byte as the last or first thing in the input), convert_xor toggled per call, free parse() interleaved; one input in six is an earlier input given again to the same object; identifiers, SBML constants and SBML function names (plus, times, minus, power, root, and, or, not, eq ... piecewise) come in several letter cases. Outcome (result string or exception class and message) of '
           'the reused object is compared with a fresh parser on the same bytes. Non-trivial = at least one parse '
           'issued right after a failed parse on the same object; distinct = distinct event-log hash.'),
     state_measure='not tracked (distinct event logs are the measure)',
@@ -128,13 +129,13 @@ CHECKS['C19'] = dict(
     shrink_keys=['ops', 'pool', 'elems'],
     expected_probes=['address_reused_while_output_archive_alive', 'roundtrip_string_api', 'roundtrip_archive_api',
                      'matrix_roundtrip', 'doubles_compared_bitwise', 'alloc_policy_lifo', 'alloc_policy_fifo',
-                     'alloc_policy_random', 'alloc_policy_system'],
+                     'alloc_policy_random', 'alloc_policy_system', 'dumps_failed_half_way'],
     rule=('one run = an expression pool of 3-16 DAG nodes over every serialisable class (numbers of every kind incl. '
           'exact double bit patterns, symbols, dummies, constants, sums, products, powers, all function classes, '
           'relationals, booleans, Piecewise, Contains, sets, Derivative, Subs) with deliberate sharing, then 2-15 '
           'steps: round trip through Basic::dumps/loads or through the archive templates (recording output '
           'streambuf, short-read input streambuf), DenseMatrix round trips, and allocation of unrelated live '
-          'objects in between; the allocator seam runs one reuse policy per run (LIFO immediate reuse, FIFO delayed, '
+          'objects in between, and dumps that fail half way (an unserialisable node after serialisable ones) followed by ordinary round trips on the same thread; the allocator seam runs one reuse policy per run (LIFO immediate reuse, FIFO delayed, '
           'seeded random, system). Oracle: eq both ways, same str, same hash, double leaves bit-identical, dump of '
           'the copy not longer than the dump of the original (sharing restored). Non-trivial = at least one round '
           'trip during whose dumps() an address was reused (or system policy); distinct = distinct event-log hash.'),
@@ -158,14 +159,14 @@ CHECKS['C20'] = dict(
     stop_after_violations=60,
     max_reported=40,
     shrink_keys=['ops', 'faults', 'pool'],
-    expected_probes=['bitflip', 'byte', 'trunc', 'zero_sector', 'dup_sector', 'splice', 'field',
+    expected_probes=['bitflip', 'byte', 'trunc', 'zero_sector', 'dup_sector', 'splice', 'field', 'numeral',
                      'damaged_dump_loaded', 'damaged_dump_rejected', 'allocation_over_budget_refused'],
     rule=('one run = an expression pool of 2-12 DAG nodes over every serialisable class, dumped through the archive '
           'templates with the write (= field) boundaries recorded and address keys normalised, then 3-33 loads of a '
           'dump that crossed the storage fault layer with 1-3 faults: bit flip, byte overwrite, truncation (torn '
           'write), zero-filled sector of 8/64/512 bytes (lost write), sector copied over another offset '
           '(misdirected write), splice of two dumps (misdirected read), and field-targeted damage (count/length '
-          '+-1, 0, huge, max; type code; first-seen flag; sharing key swapped with another field), through '
+          '+-1, 0, huge, max; type code; first-seen flag; sharing key swapped with another field; an integer string replaced by an adversarial numeral such as "-", "", "0", "+1", "0x10", 2^63, 2^64, or one digit changed), through '
           'Basic::loads or the input archive with short reads, under a memory budget of 64 MB per request / 512 MB '
           'live. Non-trivial = at least one load of bytes that really differ from the valid dump; distinct = '
           'distinct event-log hash.'),
@@ -186,22 +187,33 @@ CHECKS['C23'] = dict(
     thorough=dict(runs=24000, workers=16, chunk=5, wall_cap=3000),
     run_timeout=300,
     exec_timeout=300,
-    shrink_keys=['ops', 'seeds'],
+    shrink_keys=['ops', 'seeds', 'steps', 'force'],
     expected_probes=['random_splitting_used', 'seed_list_replayed', 'characteristic_2_branch',
-                     'equal_degree_factors_present', 'seed_list_exhausted_continued'],
-    rule=('one run = a prime p in [2,199] and 1-4 polynomials of degree <= 12 over GF(p) (products of known '
-          'irreducibles with multiplicities, equal-degree blocks, or random), each factored again and again under '
-          '9-65 different rand() seed lists served by the randomness seam (lists contain 0, 1, RAND_MAX and random '
-          'values; an exhausted list continues deterministically), through gf_factor and - for monic square-free '
-          'inputs - gf_zassenhaus and gf_shoup. Oracle in independent mod-p arithmetic: factors monic, irreducible '
-          '(Rabin), distinct, multiply back; identical factor set under every seed list and entry point; each call '
-          'ends within 20000 rand() draws. Non-trivial = at least 4 judged factorisations and random splitting '
-          'actually used; distinct = distinct event-log hash.'),
+                     'equal_degree_factors_present', 'seed_list_exhausted_continued', 'gmp_draw_forced',
+                     'several_fields_in_one_run', 'arith_history_of_in_place_updates', 'arith_aliased_operands',
+                     'arith_division_by_zero', 'arith_ddf_checked', 'arith_non_sqf_input'],
+    rule=('one run = 1-4 operations, each over its own prime field GF(p), p in [2,199] (half of the runs use several '
+          'fields). "factor": a polynomial of degree <= 12 (product of known irreducibles with multiplicities up to '
+          'p^2+2, equal-degree blocks, or random) factored again and again under 9-65 rand() seed lists and forced '
+          'outcomes of individual GMP draws (a prefix of 1-120 draws, or up to 4 chosen draw indices, forced to '
+          '0 / 1 / 2 / n/2 / n-1) through gf_factor and - for monic square-free inputs - gf_zassenhaus and gf_shoup; '
+          'oracle in independent mod-p arithmetic: factors monic, irreducible (Rabin), distinct, multiply back; '
+          'identical factor set under every seed list and entry point; each call ends within 20000 rand() draws. '
+          '"arith": a history of 4-44 steps on a pool of 1-4 mutable GaloisFieldDict objects (zero, constant, random, '
+          'repeated-factor polynomials): in-place += -= *= /= %= with polynomial and integer operands (aliased '
+          'operands, zero divisors), negate, + - *, gf_div / operator/ / operator%, shifts, sqr, pow, monic, gcd, lcm, '
+          'diff, eval / multi_eval, is_sqf / sqf_list / sqf_part, compose_mod, pow_mod, Frobenius monomial base and '
+          'map, ddf_zassenhaus / ddf_shoup; after every step every pool member must be canonical (coefficients in '
+          '[0,p), no leading zero) and equal to the harness model. Non-trivial = (>= 4 judged factorisations and '
+          'random splitting used) or an arithmetic history with >= 3 in-place updates; distinct = distinct '
+          'event-log hash.'),
     state_measure='not tracked',
-    components=dict(real=REAL_COMMON + ['GaloisFieldDict (fields.cpp): gf_factor, gf_zassenhaus, gf_shoup, ddf/edf, gf_random', 'GMP random state (gmp_randseed_ui, mpz_urandomm)'],
-                    stub=['std::rand() (link-time --wrap=rand: values come from the plan)', 'independent GF(p)[x] arithmetic and Rabin test in the harness']),
-    assumptions=['only the factorisation clause of C23 is decided here; the arithmetic clauses (add, mul, div, gcd, ...) are pure functions of their inputs and are exercised only as far as factorisation uses them',
-                 'p <= 199, degree <= 12 (p = 2: <= 8, because gf_edf_zassenhaus loops 2^(deg-1) times there)', 'constant or otherwise degenerate rand() streams are not injected: retry loops legitimately need fresh randomness',
+    components=dict(real=REAL_COMMON + ['GaloisFieldDict (fields.h / fields.cpp): operators, gf_* algorithms, gf_factor, gf_zassenhaus, gf_shoup, ddf/edf, gf_random', 'GMP random state (gmp_randseed_ui, mpz_urandomm: real generator always advanced)'],
+                    stub=['std::rand() (link-time --wrap=rand: values come from the plan)', 'outcome of chosen mpz_urandomm draws (link-time --wrap=__gmpz_urandomm: forced boundary values)', 'independent GF(p)[x] arithmetic and Rabin test in the harness']),
+    assumptions=['p <= 199; degree <= 12 for factorisation (p = 2: <= 8, because gf_edf_zassenhaus loops 2^(deg-1) times there), <= 24 in arithmetic histories',
+                 'forced draws are boundary values at bounded positions, after which the seeded generator continues; endless constant streams are not injected: retry loops legitimately need fresh randomness',
+                 'gf_eval only at points in [0, p); a constant divisor that is a non-zero multiple of p is not used (no inverse exists)',
+                 'sqf_list is judged by its defining properties (parts monic, square-free, pairwise coprime, product of powers = monic input), not by a particular grouping',
                  'sampling, not proof'],
 )
 
@@ -213,28 +225,36 @@ CHECKS['C32'] = dict(
     thorough=dict(runs=24000, workers=16, chunk=10, wall_cap=3000),
     run_timeout=300,
     exec_timeout=300,
-    shrink_keys=['ops', 'seeds'],
+    shrink_keys=['ops', 'seeds', 'force'],
     shrink_ints=['n', 'm', 'a'],
     expected_probes=['random_numbers_drawn', 'seed_list_replayed', 'same_call_under_other_sieve_state',
                      'sieve_clear', 'sieve_set_size', 'sieve_set_clear', 'sieve_iterator_stepped',
-                     'sieve_generate_primes', 'pollard_gave_up'],
-    rule=('one run = a seeded interleaving (8-58 steps) of calls of the randomised or sieve-dependent number-theory '
-          'functions (factor, factor_trial_division, factor_lehman_method, factor_pollard_pm1/rho, prime_factors, '
-          'prime_factor_multiplicities, primepi, primorial, totient, carmichael, multiplicative_order, '
-          'primitive_root(_list), mobius, mertens, is_quad_residue, is_nth_residue, nthroot_mod(_list), '
-          'powermod(_list)) on bounded arguments (n <= 1e6 and 40-bit semiprimes; moduli <= 4000: primes, prime '
-          'powers, 2p^k, composites), each replayed under 2-6 rand() seed lists, with perturbations of the global '
-          'sieve between them (clear, set_clear, set_sieve_size in {1,2,3,4,8,32}, a held iterator stepped, '
-          'generate_primes) and with earlier calls repeated under the new sieve state. Oracle: brute force from the '
-          'definitions (roots compared as residues mod m), "may fail, never lie" for the Pollard methods, identical '
-          'results across seed lists and sieve states. Non-trivial = >=4 judged calls and >=1 sieve perturbation; '
-          'distinct = distinct event-log hash.'),
+                     'sieve_generate_primes', 'pollard_gave_up', 'gmp_draw_forced'],
+    rule=('one run = a seeded interleaving (8-58 steps) of calls of the number-theory functions with perturbations of '
+          'the process-global sieve (clear, set_clear, set_sieve_size in {1,2,3,4,8,32}, a held iterator stepped, '
+          'generate_primes); earlier calls are repeated under the new sieve state, and every call is replayed under '
+          '2-6 rand() seed lists and forced outcomes of GMP draws (prefix of 1-40 draws or up to 3 chosen draws forced '
+          'to 0 / 1 / 2 / n/2 / n-1). Functions: the randomised / sieve-dependent ones (factor, factor_trial_division, '
+          'factor_lehman_method, factor_pollard_pm1/rho, prime_factors, prime_factor_multiplicities, primepi, '
+          'primorial, totient, carmichael, multiplicative_order, primitive_root(_list), mobius, mertens, '
+          'is_quad_residue, is_nth_residue, nthroot_mod(_list), powermod(_list)) on n <= 1e6, 40-bit semiprimes, '
+          'moduli <= 4000 (primes, prime powers, 2p^k, composites) and primes = 1 mod 8 above 10000 (Tonelli-Shanks); '
+          'the pure ones (gcd, lcm, gcd_ext, mod/quotient families, mod_inverse, crt, fibonacci(2), lucas(2), '
+          'binomial, factorial, divides, bernoulli, harmonic, legendre, jacobi, kronecker, quadratic_residues, '
+          'polygonal number / root, perfect-power decomposition, nextprime, probab_prime_p) on arguments up to 2e12; '
+          'factoring methods on n = q*r >= 2^64; nthroot_mod(_list) / is_nth_residue modulo prime powers up to 2^40 '
+          '(incl. 40487^2) against the group-structure root count. Oracle: brute force from the definitions in raw '
+          'GMP / __int128 arithmetic (roots compared as residues), "may fail, never lie" for the Pollard methods, '
+          'identical results across seed lists and sieve states. Non-trivial = >=4 judged calls and >=1 sieve '
+          'perturbation; distinct = distinct event-log hash.'),
     state_measure='not tracked',
-    components=dict(real=REAL_COMMON + ['ntheory.cpp, ntheory_funcs.cpp, prime_sieve.cpp', 'GMP random state'],
-                    stub=['std::rand() (link-time --wrap=rand)', 'order of sieve perturbations and calls (seeded plan)', 'brute-force oracles in the harness']),
-    assumptions=['only the clauses of C32 that meet a seam (randomness, global sieve) are decided; gcd/lcm/gcd_ext/mod/quotient families/mod_inverse/crt/fibonacci/lucas/binomial/factorial/divides/bernoulli/harmonic/legendre/jacobi/kronecker/quadratic_residues/polygonal numbers/perfect powers/nextprime/probab_prime_p are pure and NOT covered',
+    components=dict(real=REAL_COMMON + ['ntheory.cpp, ntheory_funcs.cpp, prime_sieve.cpp', 'GMP random state (real generator always advanced)'],
+                    stub=['std::rand() (link-time --wrap=rand)', 'outcome of chosen mpz_urandomm draws (link-time --wrap=__gmpz_urandomm)', 'order of sieve perturbations and calls (seeded plan)', 'brute-force oracles in the harness (raw GMP, __int128)']),
+    assumptions=['the seams (randomness, global sieve) decide the clauses that depend on them; the pure functions are checked against their definitions in the same workload, which is input sampling',
                  'which non-trivial divisor a factoring method returns, which root nthroot_mod/powermod return, and which primitive root of a composite modulus is returned are unspecified: only validity is required',
-                 'factor_lehman_method finding nothing for a composite is counted (probe) but not judged', 'sampling, not proof'],
+                 'factor_lehman_method finding nothing for a composite is counted (probe) but not judged',
+                 'bernoulli(1) = +1/2 (the library\'s sign convention); legendre only for odd primes, jacobi for odd positive n',
+                 'sampling, not proof'],
 )
 
 CHECKS['C41'] = dict(
@@ -247,12 +267,12 @@ CHECKS['C41'] = dict(
     recycle_runs=4,      # fresh process every 4 runs: cold function-local statics keep being explored
     shrink_keys=['threads', 'ops', 'switches', 'shared'],
     expected_probes=['context_switch_injected', 'sched_random', 'sched_pct', 'static_initialiser_contended',
-                     'dummies_created_concurrently'],
+                     'dummies_created_concurrently', 'handoff_objects_released_by_workers'],
     rule=('one run = 3-8 shared expressions (sums, products, powers, elementary functions, special angles that hit '
           'the lazily built tables) built by the main thread and left untouched (hash_ == 0), then 2-4 real threads '
           'each running 3-13 operations from the property\'s list (hash, eq, __cmp__, str, diff, subs, xreplace, '
           'expand, add/mul/pow/sub/div with shared and thread-local operands, function constructors, get_args, '
-          'has_symbol, free_symbols, eval_double, copying/dropping RCPs in containers, dummy()) under the seeded '
+          'has_symbol, free_symbols, eval_double, copying/dropping RCPs in containers, dummy()), half of the runs with sibling expressions (same tree, one leaf changed) compared by several threads and with 1-3 hand-off objects owned by the worker threads alone and released through reset / assignment / destruction, under the seeded '
           'scheduler: random switching with per-kind probabilities, PCT-style priorities with 1-4 change points, or '
           'switch-at-every-yield. Non-trivial = >=2 context switches and >=4 compared results; distinct = distinct '
           'hash of the context-switch sequence (yield index, thread) - see distinct_abstract_states.'),
